@@ -34,8 +34,9 @@ Ref(Cat, o, i) ==
   LET F    == At(Cat[o.case.f], o.case.swap)      \* the forest as it is at this call
       a    == PathArg(o, i)
       base == BaseOf(F, o.case.cwd, a.d, a.ps)
-      mf   == Resolve(F, base, Rel(a.ps), FALSE)
-      mn   == Resolve(F, base, Rel(a.ps), TRUE)
+      \* the kernel first copies the string from the caller's memory
+      mf   == IF Unreadable(a.ps) THEN ErrR("EFAULT") ELSE Resolve(F, base, Rel(a.ps), FALSE)
+      mn   == IF Unreadable(a.ps) THEN ErrR("EFAULT") ELSE Resolve(F, base, Rel(a.ps), TRUE)
       fl   == FlSet(o)
   IN [mf |-> mf, mn |-> mn,
       exp |-> ExpectedOf(mf, mn, NoFollow(o.case.sc, i, o.case.acc, fl)),
